@@ -422,6 +422,11 @@ func (p *prog) genPut() *op {
 	if p.r.Intn(12) == 0 {
 		o.as = p.pick("alice", "bob")
 		o.class = "as-user"
+	} else if eclass == "" && p.r.Intn(14) == 0 {
+		// signed with a wrong secret: refused on both sides, and stored on neither
+		o.as = p.pick("alice", "bob") + "+wrong-secret"
+		o.class = "wrong-secret"
+		o.eclass = "wrong-secret"
 	}
 	if p.m.verOn[b] {
 		p.m.nver++
